@@ -84,6 +84,7 @@ type Watcher struct {
 	// reader goroutine state
 	buf            []memfs.RawEvent
 	inHand         *Event
+	errInHand      error
 	evClosed       bool
 	errClosed      bool
 	id             int
@@ -149,11 +150,16 @@ func NewWatcher() (*Watcher, error) {
 			}
 		})
 	w.RegisterChan(simrt.ChanKey(fw.Errors),
-		func() bool { return fw.closed },
+		func() bool { return fw.closed || fw.errInHand != nil },
 		func() {
 			if fw.closed && !fw.errClosed {
 				fw.errClosed = true
 				close(fw.Errors)
+				return
+			}
+			if fw.errInHand != nil && !fw.closed {
+				fw.Errors <- fw.errInHand
+				fw.errInHand = nil
 			}
 		})
 	w.AddActor(fw)
@@ -168,7 +174,7 @@ func (fw *Watcher) ID() int            { return fw.in.ID }
 func (fw *Watcher) Owner() *sched.Proc { return fw.p }
 
 func (fw *Watcher) Enabled() bool {
-	if fw.closed || fw.inHand != nil {
+	if fw.closed || fw.inHand != nil || fw.errInHand != nil {
 		return false
 	}
 	return len(fw.buf) > 0 || fw.in.Pending() > 0
@@ -199,6 +205,12 @@ func (fw *Watcher) Step() string {
 	}
 	raw := fw.buf[0]
 	fw.buf = fw.buf[1:]
+	if raw.Mask&memfs.IN_Q_OVERFLOW != 0 {
+		// the reader blocks sending ErrEventOverflow until somebody receives from Errors
+		fw.errInHand = ErrEventOverflow
+		fw.w.Probe("inotify_queue_overflow")
+		return "process IN_Q_OVERFLOW: ErrEventOverflow ready for consumer (events were lost)"
+	}
 	name, ok := fw.paths[raw.Wd]
 	if ok && raw.Mask&memfs.IN_DELETE_SELF != 0 {
 		delete(fw.paths, raw.Wd)
@@ -267,6 +279,7 @@ func (fw *Watcher) Close() error {
 	}
 	fw.closed = true
 	fw.inHand = nil
+	fw.errInHand = nil
 	fw.buf = nil
 	fw.evClosed = true
 	w.Release(simrt.ChanKey(fw.Events))
